@@ -28,6 +28,7 @@ CONSTANTS
   WPropose = 45
   WCommit = 40
   WApp = 0
+  LateBias = 3
   WStore = 8
 INVARIANT EmitAtDepth
 CHECK_DEADLOCK FALSE
